@@ -1,4 +1,5 @@
 import TerwayModel.Proofs.Pool
+import TerwayModel.Model.Factory
 /-
 C07 — node pool and cloud agree; failed calls leave no orphans.
 -/
@@ -141,5 +142,15 @@ theorem c07_balance_band (idles inuses maxI minI total : Nat) (hmm : minI ≤ ma
     · omega
     · split <;> omega
   · intro h; rw [if_pos h]
+
+/-! ### below the pool: what the factory reports -/
+
+/-- whatever the cloud assigned on a call comes back to the pool — with or without an error (the metadata wait timing
+    out is an error *after* the effect): returned ≥ added; and a call without error returned exactly what was asked -/
+theorem c07_factory_reports_what_took_effect (n : Nat) (refused shows : Bool) :
+    (Factory.assign n refused shows).added ≤ (Factory.assign n refused shows).returned ∧
+    ((Factory.assign n refused shows).err = false → (Factory.assign n refused shows).returned = n) := by
+  unfold Factory.assign
+  cases refused <;> cases shows <;> simp
 
 end Terway.Props.C07
